@@ -23,7 +23,7 @@ OTHER = {
 }
 TEXTS = ["x", "a b", "", "{{t|p}}", "[[l|m]] tail", "<b>z</b>", "''i''", " spaced ", "a=b|c", "&amp;", "multi\nline", "日本"]
 INVALID = {
-    "Heading.level": [0, 7, -1, "9", "x", 100], "HTMLEntity.value": ["notanentity", "x110000", "1114112", "-5", "zz"],
+    "Heading.level": [0, 7, -1, "9", "x", 100], "HTMLEntity.value": ["notanentity", "x110000", "1114112", "-5", "zz", "12FFFF", "ffffffff", "FFFFFFF", "x12FFFF", "0x41", "", "1e3", "99999999"],
     "HTMLEntity.named": [True], "HTMLEntity.hexadecimal": [True], "HTMLEntity.hex_char": ["y", "", "xx", 5],
     "Parameter.showkey": [False], "Attribute.quotes": ["x", "''", "`", None, ""], "Attribute.pad_first": ["x", " a", "\n-"],
     "Attribute.pad_before_eq": ["x"], "Attribute.pad_after_eq": ["q "], "Tag.padding": ["x", " y "],
